@@ -746,6 +746,9 @@ class ParallelProcess(Process):
         # created at run time) brings the schema it was given along.
         self._schema_copy: Optional[Schema] = process.schema
         self._schema_known = process.schema is not None
+        # Whether the process is a step does not change, so the parent
+        # can answer that too while the child is busy.
+        self._is_step = process.is_step()
         # Result collected by end() from a command that was still in
         # flight, kept for a caller that is about to ask for it.
         self._result_at_end: Any = None
@@ -835,7 +838,7 @@ class ParallelProcess(Process):
         return self.run_command('calculate_timestep', (states,))
 
     def is_step(self) -> bool:
-        return self.run_command('is_step')
+        return self._is_step
 
     def get_private_state(self) -> State:
         return self.run_command('get_private_state')
